@@ -60,7 +60,8 @@ KINDS = ['assign', 'emit', 'val', 'str', 'for', 'def', 'call', 'if', 'raise', 'r
          'skip', 'ellipsis', 'nws', 'blank', 'dict', 'none', 'ied', 'try', 'pv', 'while', 'with', 'raise_builtin', 'strrepr',
          'float', 'tuple', 'printmulti', 'escstr', 'forval', 'ifval', 'onlyblank', 'ied_dot', 'print_then_raise', 'raise_noted', 'raise_syntax',
          'raise_group', 'raise_chained', 'raise_nomsg', 'blank_run', 'blank_edges', 'oneline_for', 'oneline_raise',
-         'oneline_ied', 'oneline_silent', 'two_options_ws', 'skip_two_options_ws']
+         'oneline_ied', 'oneline_silent', 'two_options_ws', 'skip_two_options_ws', 'echo_then_comment',
+         'semi_echo_comment', 'comment_then_echo', 'option_on_continuation']
 # compound statements written on one line: the interactive interpreter wants a bare '...' line behind them
 ONELINE = ('oneline_for', 'oneline_raise', 'oneline_ied', 'oneline_silent')
 
@@ -167,6 +168,15 @@ def gen_example(rng, i, defined):
         src = ['print("abc%ddef   x", val(%d))  # doctest: +ELLIPSIS +NORMALIZE_WHITESPACE' % (i, i)]
     elif k == 'skip_two_options_ws':
         src = ['boom(%d)  # doctest: +SKIP +ELLIPSIS' % i]
+    elif k == 'echo_then_comment':
+        # examples that rely on the echo of expression statements and carry a continuation line that is only a comment
+        src = ['for k in range(2):', '    val(%d)' % i, '# a comment after the loop']
+    elif k == 'semi_echo_comment':
+        src = ['x%d = val(%d); x%d' % (i, i, i), '# the value is echoed']
+    elif k == 'comment_then_echo':
+        src = ['# explanation first', 'for k in range(2):', '    val(%d)' % i]
+    elif k == 'option_on_continuation':
+        src = ['for w in ["spam%d", "eggs"]:' % i, '    str(val(%d)) + w' % i, '# doctest: +ELLIPSIS']
     elif k == 'oneline_for':
         src = ['for k in range(2): emit(%d)' % i]
     elif k == 'oneline_raise':
@@ -267,6 +277,8 @@ def make(seed):
                 want = []
                 if k == 'ellipsis':
                     out = out.replace('c%dd' % i, '...')
+                if k == 'option_on_continuation':
+                    out = out.replace('spam%d' % i, 'sp...')
                 if k == 'two_options_ws':
                     out = out.replace('c%dd' % i, '...').replace('def   x', 'def x')
                 if k == 'nws':
